@@ -253,6 +253,7 @@ impl Hist {
                 if std::env::var("MDX_ERRS").is_ok() {
                     let short: String = e.split(':').last().unwrap_or("").trim().chars().take(70).collect();
                     eprintln!("ERR {} {} | {}", contract, kind, short);
+                    return format!("err #{}", short);
                 }
                 "err".to_string()
             }
